@@ -1,4 +1,29 @@
-(** placeholder header, replaced at the end *)
+(** [Map<K, Orswot<M>>] WITH key removes AND state merges in the fragment [km_once]
+    (spec/MapOrswotKM.v): commands [MOAdd] and [MOKeyRm] only, every key that some key remove of
+    the history names is updated at most once by each actor.  Under per-actor (overtaking)
+    delivery, duplicates AND state merges - ops may be generated at merged states - the COMPLETE
+    state of every reachable replica is the specification [mapor_spec_km] of its knowledge
+    ([mapor_refine_km]); in particular the member table under every key is [mo_entries]
+    ([mapor_values_refine_km]).  Findings T2 and T3 are outside the fragment; [km_once_needed]
+    shows that the hypothesis [km_once] cannot be dropped.
+
+    Route: an invariant carried through [reach] (member tables = [mo_entries], nested clock = entry
+    clock, no pending nested remove); the key layer (map clock, key set, entry clocks, pending
+    table) is inherited from proofs/MapKeys.v, which covers merges.  The apply step is that of
+    proofs/MapOrswotPA.v (first half, proofs/MapOrswotKMa.v).  The merge step is new:
+      - Part 4: per key, member and actor the per-key step of [mmerge] computes [kmF] of the map
+        clocks, entry clocks and witness counters of both sides; then both pending tables are
+        replayed ([mmerge_entries_vrel]).  For a key that a remove names, [km_once] leaves one
+        update dot per actor and the entry clocks are exact ([side_named_e], [side_named_w],
+        [kmF_named]): a dot survives the per-key step iff it is live at every side that knows it,
+        and a remove known only to a side that does not know the dot is still pending there and is
+        replayed.  For a key no remove names nothing is ever covered and the step computes the join
+        ([kmF_unnamed]).  [km_point] joins the two cases, [km_merge_inv] is the merge step,
+        [km_inv_reach] the induction over [reach].
+      - Part 5: the refinement theorems.
+      - Part 6: corollaries (C01 C02 C03 C05 C08 C09 C20): convergence, merge = union of knowledge,
+        merge laws, absorption, components, the member sentence, the monitor deciders.
+      - Part 7: a closed non-vacuity example and the witness that [km_once] is needed. *)
 From stdpp Require Import gmap.
 From Crdt Require Import model.Orswot model.Map spec.System spec.OrswotSpec spec.OrswotSystem
   spec.MapSpec spec.MapSystem spec.MapOrswotSpec spec.MapOrswotKM proofs.VClock proofs.Reset proofs.OrswotLayer
@@ -562,3 +587,222 @@ Print Assumptions mapor_member_iff_km.
 Print Assumptions mapor_valspec_ok_km.
 Print Assumptions mapor_keyspec_ok_km.
 Print Assumptions mapor_refine_km_any.
+
+(** causal delivery: an op's dependency set contains its author's earlier ops *)
+Lemma km_hist_deps_own H : mohist_ok_km H →
+  ∀ i r j r', H !! i = Some r → (j < i)%nat → H !! j = Some r' → op_author r' = op_author r → j ∈ op_deps r.
+Proof.
+  induction 1 as [|H s K a cmd o Hok IH Hr Hown Hgen]; [intros i r j r' Hi; by rewrite lookup_nil in Hi|].
+  intros i r j r' Hi Hlt Hj Ha.
+  destruct (decide (i < length H)%nat) as [Hl|Hge].
+  - rewrite lookup_app_l in Hi by done. rewrite lookup_app_l in Hj by lia. by eapply IH.
+  - assert (i = length H) as ->.
+    { apply lookup_lt_Some in Hi. rewrite app_length in Hi. cbn in Hi. lia. }
+    rewrite lookup_app_r, Nat.sub_diag in Hi by lia. cbn in Hi. injection Hi as <-. cbn in *.
+    rewrite lookup_app_l in Hj by lia. by apply (Hown j r').
+Qed.
+Corollary mapor_refine_km_causal (mg : Prop) H s K : mohist_ok_km H → km_once H →
+  reach mnew (mapply vo) (mmerge vo) adm_causal mg H s K → s = mapor_spec_km H K.
+Proof.
+  intros Hok Hkm. apply mapor_refine_km_any; [done|done|].
+  intros K' i (r & Hi & Hd). exists r. split; [done|]. intros j r' Hlt Hj Ha.
+  apply Hd. by eapply (km_hist_deps_own H Hok).
+Qed.
+Print Assumptions mapor_refine_km_causal.
+
+(** * Part 7: non-vacuity.  Three actors.  Actors 1 and 2 each update key 7 once, concurrently
+    (members 10 and 20); actor 3, having seen only actor 1's update, removes key 7 (context
+    {1:1}); actor 1 also updates key 8 twice (members 30, 31): key 8 is named by no remove, so
+    [km_once] holds.  Replica P is fresh and receives the key remove first: it overtakes the
+    update it observed and is PARKED.  Replica Q holds actor 2's update and merges P: the parked
+    remove travels inside the merged state M.  Replica R holds all four updates.  Merging M into R
+    or R into M gives the same state, the state C that op delivery reaches and the specification
+    of the joint knowledge: member 20 of actor 2 survives under key 7, member 10 of actor 1 is
+    gone, nothing is pending any more. *)
+Local Ltac km_adm :=
+  eexists; split; [done|]; intros [|[|[|[|[|j]]]]] r' Hlt Hj Ha; cbn in Hj, Ha; simplify_eq; try lia; set_solver.
+Local Ltac km_own :=
+  intros [|[|[|[|[|j]]]]] r Hj Ha; cbn in Hj, Ha; simplify_eq; set_solver.
+
+Section example.
+  Let o0 : mop oop := MUp (Dot 1 1) 7 (OAdd (Dot 1 1) [10]).
+  Let o1 : mop oop := MUp (Dot 2 1) 7 (OAdd (Dot 2 1) [20]).
+  Let o2 : mop oop := MRm {[1 := 1]} {[7]}.
+  Let o3 : mop oop := MUp (Dot 1 2) 8 (OAdd (Dot 1 2) [30]).
+  Let o4 : mop oop := MUp (Dot 1 3) 8 (OAdd (Dot 1 3) [31]).
+  Let r0 := OpRec 1 o0 ∅.
+  Let r1 := OpRec 2 o1 ∅.
+  Let r2 := OpRec 3 o2 (∅ ∪ {[0%nat]}).
+  Let r3 := OpRec 1 o3 (∅ ∪ {[0%nat]}).
+  Let r4 := OpRec 1 o4 (∅ ∪ {[0%nat]} ∪ {[3%nat]}).
+  Let H : list (oprec (mop oop)) := [r0; r1; r2; r3; r4].
+  (* P: a fresh replica receives the key remove first: parked *)
+  Let sP := mapply vo mnew o2.
+  Let KP : gset nat := ∅ ∪ {[2%nat]}.
+  (* Q: holds actor 2's update; merges P: the parked remove travels *)
+  Let sQ := mapply vo mnew o1.
+  Let KQ : gset nat := ∅ ∪ {[1%nat]}.
+  Let sM := mmerge vo sQ sP.
+  (* R: holds both updates of key 7 and both updates of key 8 *)
+  Let sR := mapply vo (mapply vo (mapply vo (mapply vo mnew o0) o1) o3) o4.
+  Let KR : gset nat := ∅ ∪ {[0%nat]} ∪ {[1%nat]} ∪ {[3%nat]} ∪ {[4%nat]}.
+  (* C: everything by op delivery *)
+  Let sC := mapply vo sR o2.
+  Let KC : gset nat := KR ∪ {[2%nat]}.
+
+  Example mapor_km_example :
+    mohist_ok_km H ∧ km_once H ∧
+    moreach_km H sP KP ∧ mdeferred sP = {[ ({[1 := 1]} : gmap N N) := ({[7]} : gset N) ]} ∧
+    moreach_km H sM (KQ ∪ KP) ∧ mdeferred sM = {[ ({[1 := 1]} : gmap N N) := ({[7]} : gset N) ]} ∧
+    mo_state_entries sM 7 = {[20 := {[2 := 1]}]} ∧
+    moreach_km H sR KR ∧ mo_state_entries sR 7 = {[10 := {[1 := 1]}; 20 := {[2 := 1]}]} ∧
+    moreach_km H sC KC ∧ KC = KR ∪ (KQ ∪ KP) ∧
+    mmerge vo sR sM = sC ∧ mmerge vo sM sR = sC ∧
+    mmerge vo sR sM = mapor_spec_km H KC ∧
+    mapor_km_ok H KC (mmerge vo sM sR) = true ∧ mapor_km_ok H (KQ ∪ KP) sM = true ∧
+    mo_state_entries sC 7 = {[20 := {[2 := 1]}]} ∧
+    mo_state_entries sC 8 = {[30 := {[1 := 2]}; 31 := {[1 := 3]}]} ∧
+    mdeferred sC = ∅ ∧
+    sC = CMap {[1 := 3; 2 := 1]}
+              {[7 := MEntry {[2 := 1]} (Orswot {[2 := 1]} {[20 := {[2 := 1]}]} ∅);
+                8 := MEntry {[1 := 3]} (Orswot {[1 := 3]} {[30 := {[1 := 2]}; 31 := {[1 := 3]}]} ∅)]} ∅.
+  Proof.
+    assert (moreach_km H (mapply vo mnew o0) (∅ ∪ {[0%nat]})) as R0.
+    { apply (reach_apply _ _ _ _ _ _ mnew ∅ 0%nat r0); [constructor|done|km_adm]. }
+    assert (moreach_km H (mapply vo (mapply vo mnew o0) o3) (∅ ∪ {[0%nat]} ∪ {[3%nat]})) as R03.
+    { apply (reach_apply _ _ _ _ _ _ _ _ 3%nat r3); [exact R0|done|km_adm]. }
+    assert (mohist_ok_km H) as Hok.
+    { change H with ((((([] ++ [r0]) ++ [r1]) ++ [r2]) ++ [r3]) ++ [r4]).
+      apply (hist_snoc _ _ _ _ _ _ _ (mapply vo (mapply vo mnew o0) o3) _ 1 (MOAdd 8 [31])).
+      - apply (hist_snoc _ _ _ _ _ _ _ (mapply vo mnew o0) _ 1 (MOAdd 8 [30])).
+        + apply (hist_snoc _ _ _ _ _ _ _ (mapply vo mnew o0) _ 3 (MOKeyRm {[7]} (Some 7))).
+          * apply (hist_snoc _ _ _ _ _ _ _ mnew _ 2 (MOAdd 7 [20])).
+            -- apply (hist_snoc _ _ _ _ _ _ _ mnew _ 1 (MOAdd 7 [10])); [constructor|constructor|km_own|by vm_compute].
+            -- constructor.
+            -- km_own.
+            -- by vm_compute.
+          * apply (reach_apply _ _ _ _ _ _ mnew ∅ 0%nat r0); [constructor|done|km_adm].
+          * km_own.
+          * by vm_compute.
+        + apply (reach_apply _ _ _ _ _ _ mnew ∅ 0%nat r0); [constructor|done|km_adm].
+        + km_own.
+        + by vm_compute.
+      - apply (reach_apply _ _ _ _ _ _ _ _ 3%nat r3); [|done|km_adm].
+        apply (reach_apply _ _ _ _ _ _ mnew ∅ 0%nat r0); [constructor|done|km_adm].
+      - km_own.
+      - by vm_compute. }
+    assert (km_once H) as Hkm.
+    { intros i j ri rj di dj k oi oj Hi Hj Hvi Hvj (l & rl & c & ks & Hl & Hvl & Hk) Ha.
+      assert (k = 7) as ->.
+      { destruct l as [|[|[|[|[|l]]]]]; cbn in Hl; simplify_eq; cbn in Hvl; simplify_eq. by apply elem_of_singleton in Hk. }
+      destruct i as [|[|[|[|[|i]]]]], j as [|[|[|[|[|j]]]]]; cbn in Hi, Hj; simplify_eq; cbn in Hvi, Hvj; simplify_eq;
+        try done. }
+    assert (moreach_km H sP KP) as HP.
+    { apply (reach_apply _ _ _ _ _ _ mnew ∅ 2%nat r2); [constructor|done|km_adm]. }
+    assert (moreach_km H sQ KQ) as HQ.
+    { apply (reach_apply _ _ _ _ _ _ mnew ∅ 1%nat r1); [constructor|done|km_adm]. }
+    assert (moreach_km H sM (KQ ∪ KP)) as HM by (by apply reach_merge).
+    assert (moreach_km H sR KR) as HR.
+    { apply (reach_apply _ _ _ _ _ _ _ _ 4%nat r4); [|done|km_adm].
+      apply (reach_apply _ _ _ _ _ _ _ _ 3%nat r3); [|done|km_adm].
+      apply (reach_apply _ _ _ _ _ _ _ _ 1%nat r1); [|done|km_adm]. exact R0. }
+    assert (moreach_km H sC KC) as HC.
+    { apply (reach_apply _ _ _ _ _ _ _ _ 2%nat r2); [exact HR|done|km_adm]. }
+    assert (KC = KR ∪ (KQ ∪ KP)) as HK by (apply (bool_decide_unpack _); by vm_compute).
+    split_and!.
+    - exact Hok.
+    - exact Hkm.
+    - exact HP.
+    - apply (bool_decide_unpack _). by vm_compute.
+    - exact HM.
+    - apply (bool_decide_unpack _). by vm_compute.
+    - apply (bool_decide_unpack _). by vm_compute.
+    - exact HR.
+    - apply (bool_decide_unpack _). by vm_compute.
+    - exact HC.
+    - exact HK.
+    - exact (mapor_merge_is_union_km H Hok Hkm sR KR sM (KQ ∪ KP) sC KC HR HM HC HK).
+    - apply (mapor_merge_is_union_km H Hok Hkm sM (KQ ∪ KP) sR KR sC KC HM HR HC).
+      apply (bool_decide_unpack _). by vm_compute.
+    - rewrite HK. by apply (mapor_merge_spec_km H Hok Hkm).
+    - apply (mapor_km_ok_reach H Hok Hkm). rewrite HK, (comm_L (∪) KR). by apply reach_merge.
+    - by apply (mapor_km_ok_reach H Hok Hkm).
+    - apply (bool_decide_unpack _). by vm_compute.
+    - apply (bool_decide_unpack _). by vm_compute.
+    - apply (bool_decide_unpack _). by vm_compute.
+    - apply (bool_decide_unpack _). by vm_compute.
+  Qed.
+End example.
+Print Assumptions mapor_km_example.
+
+(** * [km_once] is needed (finding T2): actor 2 updates key 0 twice (members 8, then 9); actor 3,
+    having seen the first update only, removes key 0.  The history is API-generated in the
+    fragment without nested removes, it violates [km_once], and the merge of the replica that
+    applied the remove with the replica that holds both updates brings member 8 back: the merged
+    state is not the state op delivery reaches for the same knowledge and violates the value-level
+    specification [mo_entries]. *)
+Section needed.
+  Let p1 : mop oop := MUp (Dot 2 1) 0 (OAdd (Dot 2 1) [8]).
+  Let p2 : mop oop := MUp (Dot 2 2) 0 (OAdd (Dot 2 2) [9]).
+  Let p3 : mop oop := MRm {[2 := 1]} {[0]}.
+  Let r0 := OpRec 2 p1 ∅.
+  Let r1 := OpRec 2 p2 (∅ ∪ {[0%nat]}).
+  Let r2 := OpRec 3 p3 (∅ ∪ {[0%nat]}).
+  Let H : list (oprec (mop oop)) := [r0; r1; r2].
+  Let sA := mapply vo (mapply vo mnew p1) p2.
+  Let KA : gset nat := ∅ ∪ {[0%nat]} ∪ {[1%nat]}.
+  Let sB := mapply vo (mapply vo mnew p1) p3.
+  Let KB : gset nat := ∅ ∪ {[0%nat]} ∪ {[2%nat]}.
+  Let sD := mapply vo sB p2.
+
+  Example km_once_needed :
+    mohist_ok_km H ∧ ¬ km_once H ∧
+    moreach_km H sA KA ∧ moreach_km H sB KB ∧ moreach_km H (mmerge vo sB sA) (KB ∪ KA) ∧
+    moreach_km H sD (KB ∪ {[1%nat]}) ∧ KB ∪ {[1%nat]} = KB ∪ KA ∧
+    mmerge vo sB sA ≠ sD ∧ mmerge vo sA sB ≠ sD ∧
+    mo_entries (known_ops H (KB ∪ KA)) 0 = {[9 := {[2 := 2]}]} ∧
+    mo_state_entries sD 0 = {[9 := {[2 := 2]}]} ∧
+    mo_state_entries (mmerge vo sB sA) 0 = {[8 := {[2 := 1]}; 9 := {[2 := 2]}]} ∧
+    mapor_km_ok H (KB ∪ KA) sD = true ∧ mapor_km_ok H (KB ∪ KA) (mmerge vo sB sA) = false.
+  Proof.
+    assert (moreach_km H (mapply vo mnew p1) (∅ ∪ {[0%nat]})) as R0.
+    { apply (reach_apply _ _ _ _ _ _ mnew ∅ 0%nat r0); [constructor|done|km_adm]. }
+    assert (mohist_ok_km H) as Hok.
+    { change H with ((([] ++ [r0]) ++ [r1]) ++ [r2]).
+      apply (hist_snoc _ _ _ _ _ _ _ (mapply vo mnew p1) _ 3 (MOKeyRm {[0]} (Some 0))).
+      - apply (hist_snoc _ _ _ _ _ _ _ (mapply vo mnew p1) _ 2 (MOAdd 0 [9])).
+        + apply (hist_snoc _ _ _ _ _ _ _ mnew _ 2 (MOAdd 0 [8])); [constructor|constructor|km_own|by vm_compute].
+        + apply (reach_apply _ _ _ _ _ _ mnew ∅ 0%nat r0); [constructor|done|km_adm].
+        + km_own.
+        + by vm_compute.
+      - apply (reach_apply _ _ _ _ _ _ mnew ∅ 0%nat r0); [constructor|done|km_adm].
+      - km_own.
+      - by vm_compute. }
+    assert (moreach_km H sA KA) as HA.
+    { apply (reach_apply _ _ _ _ _ _ _ _ 1%nat r1); [exact R0|done|km_adm]. }
+    assert (moreach_km H sB KB) as HB.
+    { apply (reach_apply _ _ _ _ _ _ _ _ 2%nat r2); [exact R0|done|km_adm]. }
+    split_and!.
+    - exact Hok.
+    - intros Hkm.
+      assert (0%nat = 1%nat); [|done].
+      apply (Hkm 0%nat 1%nat r0 r1 (Dot 2 1) (Dot 2 2) 0 (OAdd (Dot 2 1) [8]) (OAdd (Dot 2 2) [9])); try done.
+      exists 2%nat, r2, {[2 := 1]}, {[0]}. split_and!; [done|done|]. by apply elem_of_singleton.
+    - exact HA.
+    - exact HB.
+    - by apply reach_merge.
+    - apply (reach_apply _ _ _ _ _ _ _ _ 1%nat r1); [exact HB|done|km_adm].
+    - apply (bool_decide_unpack _). by vm_compute.
+    - apply (bool_decide_unpack _). by vm_compute.
+    - apply (bool_decide_unpack _). by vm_compute.
+    - apply (bool_decide_unpack _). by vm_compute.
+    - apply (bool_decide_unpack _). by vm_compute.
+    - apply (bool_decide_unpack _). by vm_compute.
+    - by vm_compute.
+    - by vm_compute.
+  Qed.
+End needed.
+Print Assumptions km_once_needed.
+Print Assumptions km_point.
+Print Assumptions km_merge_inv.
+Print Assumptions km_inv_reach.
